@@ -399,8 +399,21 @@ pub fn create(m: &[u32], df: u32, icao: u32) -> Plane {
 
 /// what `read_lines` does before touching the table: a frame is applied only when a DF and a
 /// non-zero address can be read from it. Returns (df, address).
+///
+/// For the address/parity formats (DF0/4/5/16/20/21) the address is AP xor CRC-24; that equality is
+/// decided for every frame by the C03 harnesses. Row-step harnesses are about what the frame does
+/// to the row, which does not depend on the address value, so under Kani the CRC is cut: the address
+/// is an arbitrary non-zero 24-bit value (CRC-88 next to the Comm-B decoder costs > 25 min / 8 GB).
+/// Native replay computes the real address.
 pub fn accepted(m: &[u32]) -> Option<(u32, u32)> {
     let df = get_downlink_format(m)?;
+    let drawn = any_below(1 << 24);
+    let ap_format = matches!(df, 0 | 4 | 5 | 16 | 20 | 21);
+    #[cfg(kani)]
+    if ap_format {
+        assume(drawn != 0);
+        return Some((df, drawn));
+    }
     let icao = get_icao(m, df)?;
     Some((df, icao))
 }
